@@ -242,7 +242,7 @@ theorem typed_cols (tm : Table) (tb : TableSpec) (hn : tm.colNames = tb.colNames
     | some y =>
       rw [hb] at hj
       have hxy : x.name = y.name := Option.some.inj hj
-      obtain ⟨cs, hcs, hcn, hct⟩ := hty x (List.mem_of_getElem? hm)
+      obtain ⟨cs, hcs, hcn, hct, _⟩ := hty x (List.mem_of_getElem? hm)
       -- `cs` is the reference column at position `j`: names are unique
       obtain ⟨k, hk⟩ := List.mem_iff_getElem?.mp hcs
       have h1 : tb.colNames[k]? = some x.name := by simp [TableSpec.colNames, hk, hcn]
@@ -303,6 +303,40 @@ theorem fidelity_typed (rc : Bool) (ss : List Stmt) (db : DB) (hs : ss.all Stmt.
         rw [← hc]; exact (hr.inv.each tm (List.mem_of_getElem? hmi)).cols.nodup
       simp only [Option.map_some]
       rw [hn, typed_cols tm tb hc hnd (hr.types i tm tb hmi hdi)]
+
+
+/-- **C05, names, positions, types and option kinds.**  Position by position, every loaded column has the reference
+    column's name and type, and the same option kinds with the same values (NOT NULL, NULL, AUTO_INCREMENT, UNIQUE,
+    DEFAULT v, COMMENT t) up to order; PRIMARY KEY is recorded separately on both sides and not compared here. -/
+theorem fidelity_options (rc : Bool) (ss : List Stmt) (db : DB) (hs : ss.all Stmt.colSafe = true)
+    (he : execAll rc [] ss = some db) :
+    ∃ m, run {} ss = .ok m ∧ typedView m = typedSpec db ∧
+      ∀ (i j : Nat) (tm : Table) (tb : TableSpec) (c : Column) (cs : ColSpec), m.tables[i]? = some tm → db[i]? = some tb →
+        tm.cols[j]? = some c → tb.cols[j]? = some cs → (Table.optKinds c.cur.opts).Perm cs.opts := by
+  obtain ⟨m, hm, hr⟩ := run_rel rc ss {} [] db Rel.empty hs he
+  obtain ⟨m', hm', hty⟩ := fidelity_typed rc ss db hs he
+  have : m' = m := by rw [hm] at hm'; exact (Except.ok.inj hm').symm
+  subst this
+  refine ⟨m', hm, hty, ?_⟩
+  intro i j tm tb c cs hmi hdi hcj hsj
+  obtain ⟨cs', hcs', hn', _, ho'⟩ := hr.types i tm tb hmi hdi c (List.mem_of_getElem? hcj)
+  -- `cs'` is the reference column at position `j`: same name there, names unique
+  have hv : (colView m')[i]? = (specView db)[i]? := by rw [hr.view]
+  simp only [colView, specView, List.getElem?_map, hmi, hdi, Option.map_some] at hv
+  have hc : tm.colNames = tb.colNames := (Prod.mk.inj (Option.some.inj hv)).2
+  have hnd : tb.colNames.Nodup := by rw [← hc]; exact (hr.inv.each tm (List.mem_of_getElem? hmi)).cols.nodup
+  have hcn : c.name = cs.name := by
+    have h1 : tm.colNames[j]? = some c.name := by simp [Table.colNames, hcj]
+    have h2 : tb.colNames[j]? = some cs.name := by simp [TableSpec.colNames, hsj]
+    rw [hc, h2] at h1; exact (Option.some.inj h1).symm
+  obtain ⟨k, hk⟩ := List.mem_iff_getElem?.mp hcs'
+  have h1 : tb.colNames[k]? = some c.name := by simp [TableSpec.colNames, hk, hn']
+  have h2 : tb.colNames[j]? = some c.name := by simp [TableSpec.colNames, hsj, hcn]
+  have hkl : k < tb.colNames.length := (List.getElem?_eq_some_iff.mp h1).1
+  have hkj : k = j := (List.getElem?_inj hkl hnd).mp (h1.trans h2.symm)
+  subst hkj
+  rw [hk] at hsj
+  rw [← Option.some.inj hsj]; exact ho'
 
 end ReaderMysql
 end Sqlize
